@@ -52,9 +52,21 @@ class FakeStdin:
         self._owner = owner
         self.fail_after: Optional[int] = None  # raise BrokenResourceError after n sends
         self.gate: Optional[asyncio.Event] = None  # when set and not yet fired: the child is not reading its stdin (pipe full)
+        # what a write does while the gate is closed: "full" - the pipe is already full, no byte is taken until the child
+        # reads again; "queued" - an asyncio pipe transport: write() queues the whole frame at once (it will reach the child,
+        # in order, whatever happens to the caller) and only drain() waits for the child
+        self.stall_mode = "full"
 
     async def send(self, data: bytes) -> None:
         await asyncio.sleep(0)
+        if self.gate is not None and self.stall_mode == "queued" and not self.gate.is_set():
+            if self.closed:
+                raise anyio.ClosedResourceError
+            self.writes.append((asyncio.get_running_loop().time(), data))
+            await self.gate.wait()
+            if self._owner.on_stdin is not None:
+                self._owner.on_stdin(data)
+            return
         if self.gate is not None:
             await self.gate.wait()
         if self.closed:
